@@ -81,7 +81,7 @@ CHECKS = {
  "C25": ("exploration", "four-driver differential (library, CLI, HTTP, FFI)",
          "One scenario through four drivers into four directories; final contents and every response must be equal after parsing.",
          "FFI arm laid out one document per commit; CLI flag form compared with the documented request.", "DESIGN.md#c25"),
- "C26": ("other", "guard pages + canaries around the real C ABI call (sanitizer-style), exhaustive over buffer capacities; ASan/Miri builds of the same matrix in thorough when available",
+ "C26": ("other", "guard pages + canaries around the real C ABI call (sanitizer-style), exhaustive over buffer capacities; the same functions driven inside the Miri interpreter with exact-size allocations (both tiers, harness/vmiri); AddressSanitizer build of the same matrix in thorough when available",
          "The output buffer ends at a PROT_NONE page and is surrounded by canaries; every capacity 0..full_len+64 per tuple; return value, NUL, prefix and untouched bytes are checked; a 1-byte overrun kills the worker and is observed by the parent.",
          "Caller honours the documented contract; panics (process abort) are C16's subject.", "DESIGN.md#c26"),
  "C28": ("exploration", "copy equality + original removed/modified + strace path monitor + tamper hashes",
